@@ -59,6 +59,7 @@ def check_c13(prog, rep, tier, cfg):
     c13f(prog, rep)
     c13g(prog, rep)
     c13h(prog, rep)
+    c13i(prog, rep)
 
 
 def c13g(prog, rep):
@@ -577,6 +578,64 @@ def blank_definition(prog, rep, R):
               instance={"predicates": [short(x.npath) for x, _ in preds], "probes": len(probes)})
     rep.check(0x3000 in gchars, R, "AGREE:U+3000-excluded-from-identifiers", "U+3000 is blank but no longer excluded from identifier characters")
 
+
+
+BLANK_PROBES = [0x00, 0x09, 0x0A, 0x0B, 0x0C, 0x0D, 0x1F, 0x20, 0x21, 0x41, 0x7B, 0x7F, 0x80, 0x85, 0xA0, 0x1680, 0x2003, 0x2028, 0x202F, 0x2FFF, 0x3000, 0x3001, 0x303F, 0xFEFF, 0x1F600]
+UNICODE_WS_ROUTINES = ("trim", "trim_start", "trim_end", "trim_left", "trim_right", "split_whitespace", "is_whitespace")
+
+
+def c13i(prog, rep):
+    """C13.i — one blank set in the whole lexer.  Where a token ends against blanks (the leading-whitespace counters, the tail of an
+    unterminated comment / directive that is left to the end-of-file token ..) is decided by per-character tests; every such test in
+    the lexer module — a closure or function from one character to bool that behaves like a blank test on ASCII (true for every
+    probe <= U+0020, false for `!`, `A`, `{`, DEL) — accepts exactly {<= U+0020, U+3000} on the non-ASCII probes too, and no lexer
+    function cuts text with a library routine that has its own, wider notion (`str::trim*`, `split_whitespace`,
+    `char::is_whitespace` handed over as a function).  Two tests that disagree (U+00A0, U+0085, U+2003 .. are White_Space for
+    the standard library and not blank for Delphi) cut one character off a token on one side that the other side does not take:
+    it becomes a token of its own kind."""
+    R = "C13.i"
+    from table import Table, TooComplex, run_concrete, eval_desc, vdesc, Unknown
+    n = 0
+    for b in prog.bodies.values():
+        if not b.npath.startswith(LX) or "::tests::" in b.npath:
+            continue
+        # (a) library routines with the Unicode White_Space notion
+        for c in b.calls():
+            nm = (c.callee or "").split("::")[-1]
+            if (c.callee or "").startswith("core::str::") and nm in UNICODE_WS_ROUTINES and not c.callee.endswith("_matches"):
+                rep.fail(R, "library-whitespace:%s:%s" % (short(b.npath), nm), "%s cuts text with %s, whose notion of whitespace is Unicode White_Space and not the lexer's blank set {<= U+0020, U+3000}"
+                         % (short(b.npath), c.callee), where=c.where())
+        # (b) per-character tests
+        if b.locals[0]["ty"] != "bool" or b.loops():
+            continue
+        cparams = [i for i in range(1, b.arg_count + 1) if b.locals[i]["ty"].replace("&", "").strip() == "char"]
+        others = [i for i in range(1, b.arg_count + 1) if i not in cparams and "closure" not in b.locals[i]["ty"]]
+        if len(cparams) != 1 or others:
+            continue
+        pi = cparams[0]
+        verdicts = {}
+        try:
+            tb = Table(prog, b, inline=1)
+            for ch in BLANK_PROBES:
+                res, _ = run_concrete(tb, {"arg%d" % pi: ch})
+                verdicts[ch] = bool(eval_desc(vdesc(res), {"arg%d" % pi: ch}))
+        except (TooComplex, Unknown, KeyError, TypeError, ValueError) as e:
+            rep.note("C13.i: %s is a character test that is not evaluated (%s)" % (short(b.npath), str(e)[:60]))
+            continue
+        ascii_like = all(verdicts[ch] == (ch <= 0x20) for ch in BLANK_PROBES if ch < 0x80)
+        if not ascii_like:
+            continue
+        n += 1
+        diff = {hex(ch): v for ch, v in verdicts.items() if ch >= 0x80 and v != (ch == 0x3000)}
+        rep.check(not diff, R, "blank-test:%s" % short(b.npath),
+                  "%s is a blank test (true for every character up to U+0020, false for `!`, `A`) that does not accept exactly {<= U+0020, U+3000}: %s — the lexer's blank tests "
+                  "no longer agree, so a character that one of them skips and another does not is cut off its token" % (short(b.npath), diff),
+                  where="%s:%d" % (b.file, b.line), instance={"test": short(b.npath), "probes": len(BLANK_PROBES), "accepts_above_ascii": ["U+3000"] if not diff else sorted(diff)})
+    for c in prog.who_calls("core::char::methods::is_whitespace", mentions=True):
+        if c.body.npath.startswith(LX) and c.callee != "core::char::methods::is_whitespace":
+            rep.fail(R, "library-whitespace:%s:is_whitespace-as-fn" % short(c.body.npath), "%s hands char::is_whitespace to %s: Unicode White_Space, not the lexer's blank set"
+                     % (short(c.body.npath), c.callee), where=c.where())
+    rep.floor(R, "blank tests of the lexer evaluated on the probe characters", n, 1)
 
 
 def c13e(prog, rep):
